@@ -270,7 +270,7 @@ void HttpMessage::readHeaders()
 			return;
 		}
 		headerName = line.substring(0, i);
-		headerValue = (i < line.length() - 1) ? line.substring(i + 2) : String();
+		headerValue = line.substring(i + 1).trimmed(); // the white space around the value is optional and not part of it
 		setHeader(headerName, headerValue);
 	}
 }
